@@ -113,6 +113,21 @@ def corr(ctx):
                     if c["det"] == "semgrep": c["token"] = c["from"]
                     if c["to"] == c["from"]: c["to"] = "omega"
         scns.append(s)
+    # in every run: a package that is already declared (by the manifest, or by an earlier codemod of the batch) followed by a new one
+    for variant in range(3):
+        s = synth.gen_scenario(rng, n_codemods=3, kinds=("none",))
+        s["dry"] = False
+        s["path_include"], s["path_exclude"] = [], []
+        present = sorted({ln.split('"')[1].split("_")[0] for p, t in s["world"] if p.endswith(".py") for ln in t.splitlines() if '"' in ln}) or ["alpha"]
+        s["world"] = [[p, t] for p, t in s["world"] if p != "requirements.txt"] + [["requirements.txt", ["dep-one\n", "requests\n", "dep-one\ndep-two\n"][variant]]]
+        s["stores"] = [{"path": "requirements.txt", "declared": [["dep-one"], ["requests"], ["dep-one", "dep-two"]][variant]}]
+        froms = rng.sample(present, 3) if len(present) >= 3 else [present[i % len(present)] for i in range(3)]
+        for i, (c, deps) in enumerate(zip(s["codemods"], [[["dep-one"], ["dep-two"], ["dep-one"]], [["dep-two"], ["dep-two"], ["dep-three"]], [["dep-two"], ["dep-one"], ["dep-three"]]][variant])):
+            c["deps"] = deps
+            c["from"] = froms[i]           # distinct tokens: every codemod of the batch has something left to rewrite
+            c["to"] = f"omega{i}"
+            c["report_only"] = False
+        scns.append(s)
     jobs = [(s, False) for s in scns]
     if ctx.thorough:
         jobs += [(s, True) for s in scns[:25]]  # the same scenarios against the real semgrep binary
